@@ -47,5 +47,8 @@ def run(chk):
     # dense family for upper_bound_assign_if_exact (and the integer variant): pairs of small shapes with end points on a tiny
     # grid, sharing / adjacent / crossing faces, both argument orders; and swaps / assignments between lazy states
     lines += gen_shapes.make_targeted(chk.seed * 15485863 + 18, 1600 if chk.quick else 12000, ["oct_q", "oct_q", "bds_q", "box_q"], start=200000, which=["ubie", "ubie", "ubie", "swap"])
+    # non-dividing divisors in every affine transformer; fold / expand / map / remove with both index orders;
+    # relation_with arguments of smaller space dimension
+    lines += gen_shapes.make_targeted(chk.seed * 49979687 + 28, 420 if chk.quick else 5000, KINDS, start=400000, which=["affine_div", "fold", "relarg"])
     out, byid = shapescheck.run_cases(chk, "C04", shapescheck.corpus_cases("C04") + lines, "c04", owner)
     shapescheck.account(chk, out, byid, "C04_* (tightness of closed forms, exactness of the comparisons, best abstraction) + verified equivalence / supremum")
